@@ -6,27 +6,13 @@ Import ListNotations.
 Local Open Scope list_scope.
 Local Open Scope string_scope.
 
-(* ---------- the foreign-object loop on a recursive foreign type ---------- *)
-Lemma w_rec_loop : forall fuel defs pending,
-    pending = collect_foreign w_rec_ctx "alpha" (map snd (s_objects w_rec_schema)) ->
-    foreign_loop w_rec_ctx "alpha" fuel defs pending = OutOfFuel.
-Proof.
-  induction fuel as [|f IH]; intros defs pending ->.
-  - reflexivity.
-  - change (foreign_loop w_rec_ctx "alpha" f
-              (set_definitions defs (map snd (collect_foreign w_rec_ctx "alpha" (map snd (s_objects w_rec_schema)))))
-              (collect_foreign w_rec_ctx "alpha" (map snd (collect_foreign w_rec_ctx "alpha" (map snd (s_objects w_rec_schema)))))
-            = OutOfFuel).
-    apply IH. vm_compute. reflexivity.
-Qed.
-
-Lemma w_rec_never_ends : exists s, In s w_rec_ctx /\ forall fuel, emit_schema w_rec_ctx fuel s = OutOfFuel.
-Proof.
-  exists w_rec_schema. split; [left; reflexivity|].
-  intros fuel. unfold emit_schema.
-  change (s_pkg w_rec_schema) with "alpha".
-  rewrite w_rec_loop; reflexivity.
-Qed.
+(* ---------- the foreign-object loop on a recursive foreign type: converted once ---------- *)
+Lemma w_rec_terminates :
+  exists jd, emit_schema w_rec_ctx (emit_fuel w_rec_ctx) w_rec_schema = Ok jd /\
+             def_names jd = ["Root"; "Node"] /\ refs_resolve_b jd = true /\
+             om_get (jd_defs jd) "Node" =
+             Some (JSStruct [] [("next", (JSRef "beta" "Node", "", None))], "").
+Proof. eexists. split; [vm_compute; reflexivity|]. repeat split; vm_compute; reflexivity. Qed.
 
 (* ---------- a foreign object replaces the local one of the same bare name ---------- *)
 Lemma objects_present_refuted :
